@@ -14,8 +14,9 @@ type WaitGroup = simrt.WaitGroup
 type Once = simrt.Once
 type Locker = sync.Locker
 
-// Pool and Map keep the real implementations: they never block.
-type Pool = sync.Pool
+// Pool is simulated (deterministic object reuse); Map keeps the real implementation (it
+// never blocks; Range order over it is not seeded).
+type Pool = simrt.Pool
 type Map = sync.Map
 
 func NewCond(l Locker) *Cond { return simrt.NewCond(l) }
